@@ -13,6 +13,10 @@ use std::f64::consts::PI;
 
 pub struct C11;
 
+fn one() -> f64 {
+    1.0
+}
+
 #[derive(Clone, Copy, Debug, Serialize, Deserialize, PartialEq)]
 pub enum PairKind {
     Far,
@@ -34,7 +38,7 @@ pub enum Case {
     Line { c: P2, r: f64, dist_rel: f64, dir_ang: f64, dir_len: f64, along: f64, seg: (f64, f64), exact_tangent: bool },
     CurveCircle { spec: Curve2Spec, c: P2, r: f64 },
     Project { c: P2, r: f64, p: P2 },
-    Arc3 { p0: P2, p1: P2, p2: P2, collinear: bool },
+    Arc3 { p0: P2, p1: P2, p2: P2, collinear: bool, #[serde(default = "one")] scale: f64 },
     ArcBox { c: P2, r: f64, a0: f64, sweep: f64 },
 }
 
@@ -72,7 +76,7 @@ impl Property for C11 {
                 .prop_map(|(c, r, dist_rel, dir_ang, dir_len, along, seg, exact_tangent)| Case::Line { c, r, dist_rel, dir_ang, dir_len, along, seg, exact_tangent }),
             1 => (curve2_spec(3, 30, 0.0, 1.0, false), p2(1.0), unif(0.1, 1.5)).prop_map(|(spec, c, r)| Case::CurveCircle { spec, c, r }),
             1 => (p2(100.0), logu(-1.0, 2.0), p2(150.0)).prop_map(|(c, r, p)| Case::Project { c, r, p }),
-            2 => (p2(50.0), p2(50.0), p2(50.0), prop::bool::weighted(0.15)).prop_map(|(p0, p1, p2, collinear)| Case::Arc3 { p0, p1, p2, collinear }),
+            2 => (p2(50.0), p2(50.0), p2(50.0), prop::bool::weighted(0.15), prop_oneof![2 => Just(1.0), 3 => logu(-5.0, 2.0)]).prop_map(|(p0, p1, p2, collinear, scale)| Case::Arc3 { p0, p1, p2, collinear, scale }),
             3 => (p2(100.0), logu(-1.0, 2.0), unif(-4.0 * PI, 4.0 * PI), sweep()).prop_map(|(c, r, a0, sweep)| Case::ArcBox { c, r, a0, sweep }),
         ]
         .boxed()
@@ -84,7 +88,7 @@ impl Property for C11 {
             Case::Line { c, r, dist_rel, dir_ang, dir_len, along, seg, exact_tangent } => line(c, *r, *dist_rel, *dir_ang, *dir_len, *along, *seg, *exact_tangent),
             Case::CurveCircle { spec, c, r } => curve_circle(spec, c, *r),
             Case::Project { c, r, p } => project(c, *r, p),
-            Case::Arc3 { p0, p1, p2, collinear } => arc3(p0, p1, p2, *collinear),
+            Case::Arc3 { p0, p1, p2, collinear, scale } => arc3(p0, p1, p2, *collinear, *scale),
             Case::ArcBox { c, r, a0, sweep } => arc_box(c, *r, *a0, *sweep),
         }
     }
@@ -458,9 +462,12 @@ fn project(c: &P2, r: f64, p: &P2) -> Verdict {
     cx.pass()
 }
 
-fn arc3(p0: &P2, p1: &P2, p2: &P2, collinear: bool) -> Verdict {
+fn arc3(p0: &P2, p1: &P2, p2: &P2, collinear: bool, sc: f64) -> Verdict {
     let mut cx = Ctx::new();
-    let (a, mut b, c) = (pt2(p0), pt2(p1), pt2(p2));
+    // the triple is scaled about its first point: a triangle of any size, anywhere
+    let a = pt2(p0);
+    let (mut b, c) = (a + (pt2(p1) - a) * sc, a + (pt2(p2) - a) * sc);
+    cx.label_if(sc < 1e-2, "arc3_small");
     if collinear {
         // exactly collinear lattice triple
         let a = Point2::new((a.x * 4.0).round() / 4.0, (a.y * 4.0).round() / 4.0);
@@ -476,14 +483,14 @@ fn arc3(p0: &P2, p1: &P2, p2: &P2, collinear: bool) -> Verdict {
     }
     let scale = a.coords.norm().max(b.coords.norm()).max(c.coords.norm()) + (b - a).norm() + (c - a).norm();
     let area2 = cross(&(b - a), &(c - a));
-    if area2.abs() < 2e-3 * ((b - a).norm() * (c - a).norm()).max(1e-12) || area2.abs() < 1e-3 {
+    if area2.abs() < 2e-3 * ((b - a).norm() * (c - a).norm()).max(1e-300) {
         // not in general position: nudge b off the chord
         let chord = c - a;
-        if chord.norm() < 1e-3 {
+        if chord.norm() < 1e-3 * sc {
             return Verdict::Discard("coincident end points");
         }
         let n = Vector2::new(-chord.y, chord.x) / chord.norm();
-        b = a + chord * 0.5 + n * (0.3 * chord.norm() + 0.01);
+        b = a + chord * 0.5 + n * (0.3 * chord.norm());
     }
     let area2 = cross(&(b - a), &(c - a));
     let circ = match Circle2::from_3_points(a, b, c) {
